@@ -70,10 +70,16 @@ def _child_main(rd, wr, clock):
                 clock.now = msg[1]
                 args = tasks.pop(0)
                 try:
-                    func(*args) if star else func(args)
+                    ret = func(*args) if star else func(args)
                     clock.now += msg[2]
-                    wr.send(("done", True, None))
+                    try:
+                        pickle.dumps(ret)
+                    except Exception:                         # noqa
+                        ret = None
+                    wr.send(("done", True, ret))
                 except BaseException as e:                    # noqa
+                    # like multiprocessing's mapstar (list(map(func, chunk))): an exception ends the whole chunk
+                    tasks = []
                     wr.send(("done", False, f"{type(e).__name__}: {e}"))
     except EOFError:
         pass
@@ -190,7 +196,62 @@ class SimPool:
         pass
 
     def join(self):
-        pass
+        self._drain_async()
+
+    # -- apply_async: every call is a chunk of one task; they are executed (under the scheduler) when the caller first
+    #    waits for one of them, in submission order of the queue like the real pool's task queue
+    def apply_async(self, func, args=(), kwds=None, callback=None, error_callback=None):
+        res = SimAsyncResult(self)
+        self._pending = getattr(self, "_pending", [])
+        self._pending.append((_Apply(func, dict(kwds or {})), tuple(args), callback, error_callback, res))
+        return res
+
+    def apply(self, func, args=(), kwds=None):
+        return self.apply_async(func, args, kwds).get()
+
+    def map_async(self, func, iterable, chunksize=None, callback=None, error_callback=None):
+        res = SimAsyncResult(self)
+        try:
+            res._set(True, self._map(func, iterable, chunksize, star=False))
+        except RuntimeError as e:
+            res._set(False, e)
+            if error_callback:
+                error_callback(e)
+        else:
+            if callback:
+                callback(res._value)
+        return res
+
+    def starmap_async(self, func, iterable, chunksize=None, callback=None, error_callback=None):
+        res = SimAsyncResult(self)
+        try:
+            res._set(True, self._map(func, iterable, chunksize, star=True))
+        except RuntimeError as e:
+            res._set(False, e)
+            if error_callback:
+                error_callback(e)
+        else:
+            if callback:
+                callback(res._value)
+        return res
+
+    def _drain_async(self):
+        pending, self._pending = getattr(self, "_pending", []), []
+        if not pending:
+            return
+        batches = [(f, (a,)) for f, a, _cb, _ecb, _r in pending]
+        outcome = self._execute(batches, star=True, raise_errors=False)
+        for (f, a, cb, ecb, r), chunk_out in zip(pending, outcome):
+            ok, payload = chunk_out[0]
+            if ok:
+                r._set(True, payload)
+                if cb:
+                    cb(payload)
+            else:
+                err = RuntimeError(payload)
+                r._set(False, err)
+                if ecb:
+                    ecb(err)
 
     def _map(self, func, iterable, chunksize, star):
         if not hasattr(iterable, "__len__"):
@@ -202,7 +263,12 @@ class SimPool:
         if len(iterable) == 0:
             chunksize = 0
         batches = list(RealPool._get_tasks(func, iterable, chunksize))   # the real chunking code
+        out = self._execute(batches, star)
+        return [v for chunk in out for ok, v in chunk]
+
+    def _execute(self, batches, star, raise_errors=True):
         self.chunks = [len(b[1]) for b in batches]
+        outcome = [[] for _ in batches]
         queue = [(i, pickle.dumps((star, b))) for i, b in enumerate(batches)]     # one pickle per chunk
         self.assignment = [None] * len(batches)
         step = 0
@@ -245,8 +311,12 @@ class SimPool:
                     raise HarnessError(f"unexpected reply {msg}")
                 w.remaining -= 1
                 self.clock.now += dur
+                outcome[w.chunk].append((bool(msg[1]), msg[2]))
                 if not msg[1]:
                     self.errors.append((w.chunk, msg[2]))
+                    outcome[w.chunk].extend([(False, "not run: an earlier task of the chunk raised")] * w.remaining)
+                    self.aborted_tasks = getattr(self, "aborted_tasks", 0) + w.remaining
+                    w.remaining = 0
             else:
                 w = self.workers[d[1]]
                 w.stalled = 3
@@ -259,6 +329,42 @@ class SimPool:
             step += 1
             if self.on_step:
                 self.on_step(step, d)
-        if self.errors:
+        if self.errors and raise_errors:
             raise RuntimeError("task failed in worker: " + "; ".join(e[1] for e in self.errors))
-        return [None] * len(iterable)
+        return outcome
+
+
+class _Apply:
+    """func(*args, **kwds) as a picklable callable of positional arguments."""
+
+    def __init__(self, func, kwds):
+        self.func, self.kwds = func, kwds
+
+    def __call__(self, *args):
+        return self.func(*args, **self.kwds)
+
+
+class SimAsyncResult:
+    def __init__(self, pool):
+        self._pool, self._done, self._ok, self._value = pool, False, None, None
+
+    def _set(self, ok, value):
+        self._done, self._ok, self._value = True, ok, value
+
+    def wait(self, timeout=None):
+        if not self._done:
+            self._pool._drain_async()
+
+    def ready(self):
+        return self._done
+
+    def successful(self):
+        if not self._done:
+            raise ValueError("result is not ready")
+        return bool(self._ok)
+
+    def get(self, timeout=None):
+        self.wait()
+        if self._ok:
+            return self._value
+        raise self._value
